@@ -285,7 +285,7 @@ def correspond(name, P, T, lmin, ov, iters, seed, stats, V, every=1):
 # ---------------------------------------------------------------- oracle: two real runs that differ by a translation
 def tol_rel(ratio, iters):
     eps = 2.2e-16
-    return 1e-8 + iters * (20 * eps * (ratio + 10) + 5 * eps * ratio ** 3)       # the policy of c14.py
+    return 1e-8 + iters * 20 * eps * (ratio + 10)       # the policy of c14.py (no r^3 term: the volume determinants are centred)
 
 
 def book_tokens(R):
